@@ -46,6 +46,9 @@ func verifyFunc(P *Program, C *Contracts, fc *FuncContract) *Unit {
 			u.assert("(< " + a.S + " WM@0)")
 			u.assert("(>= " + a.S + " 0)")
 		}
+		if a.S != "" && u.S.sortOf(a.T) == "Slice" {
+			u.assert("(< (sl_arr " + a.S + ") WM@0)")
+		}
 	}
 	u.compInit("WM", "Int")
 	cover := u.oblige(u.Name+"#requires-sat", "cover", "the precondition is satisfiable", "true", nil)
@@ -91,7 +94,7 @@ func verifyFunc(P *Program, C *Contracts, fc *FuncContract) *Unit {
 	}
 	if fc.Harness != "" && fn.Pkg != nil {
 		for _, o := range u.obls {
-			if o.Kind == "ensures" || o.Kind == "assert" {
+			if !o.ExpectSat {
 				o.Harness = fc.Harness
 				o.HarnessPkg = fn.Pkg.Pkg.Path()
 			}
